@@ -50,35 +50,6 @@ func (vc *VC) merge(states ...*State) *State {
 			vals[i] = s.vars[k]
 		}
 		out.vars[k] = vc.mergeVals(k.Name(), vals, pcs)
-		// term introduction for merged slices: a read through the merged slice makes the read through each
-		// branch's slice available (equal under that branch's path condition)
-		if mt, ok := out.vars[k].(Term); ok && mt.Sort == SSlice {
-			if sl, ok := k.Type().Underlying().(*types.Slice); ok {
-				differs := false
-				for _, v := range vals {
-					if t, ok := v.(Term); !ok || t.S != mt.S {
-						differs = true
-					}
-				}
-				if differs {
-					for _, lf := range vc.leaves(vc.elemKey(sl.Elem()), sl.Elem()) {
-						fn := "rd!" + smtName(lf.key)
-						hs := HeapSort(lf.sort)
-						if !vc.declSet[fn] {
-							continue
-						}
-						hh, ii := Term{"h?", hs}, Term{"i?", SInt}
-						var cs []Term
-						for i, v := range vals {
-							if t, ok := v.(Term); ok {
-								cs = append(cs, Implies(pcs[i], Eq(App(lf.sort, fn, hh, mt, ii), App(lf.sort, fn, hh, t, ii))))
-							}
-						}
-						vc.assumeGlobal(Forall([]Term{hh, ii}, [][]Term{{App(lf.sort, fn, hh, mt, ii)}}, And(cs...)))
-					}
-				}
-			}
-		}
 	}
 	keys := map[string]bool{}
 	for _, s := range live {
@@ -96,27 +67,6 @@ func (vc *VC) merge(states ...*State) *State {
 			}
 		}
 		out.heaps[k] = vc.mergeVals("H!"+k, ts, pcs).(Term)
-		// term introduction for merged heaps (see above)
-		if mh := out.heaps[k]; isHeapSort(mh.Sort) && vc.declSet["rd!"+smtName(k)] {
-			differs := false
-			for _, v := range ts {
-				if t, ok := v.(Term); !ok || t.S != mh.S {
-					differs = true
-				}
-			}
-			if differs {
-				inner := Sort(string(mh.Sort)[len("(Array Int (Array Int ") : len(mh.Sort)-2])
-				fn := "rd!" + smtName(k)
-				ss, ii := Term{"s?", SSlice}, Term{"i?", SInt}
-				var cs []Term
-				for i, v := range ts {
-					if t, ok := v.(Term); ok && t.S != "" {
-						cs = append(cs, Implies(pcs[i], Eq(App(inner, fn, mh, ss, ii), App(inner, fn, t, ss, ii))))
-					}
-				}
-				vc.assumeGlobal(Forall([]Term{ss, ii}, [][]Term{{App(inner, fn, mh, ss, ii)}}, And(cs...)))
-			}
-		}
 	}
 	as := make([]Val, len(live))
 	for i, s := range live {
@@ -181,6 +131,19 @@ func (vc *VC) execBlock(fr *frame, st *State, stmts []ast.Stmt) *State {
 			return nil
 		}
 		st = vc.execStmt(fr, st, s)
+		// `at stmtN:` hints apply right after the N-th statement of the function (source order), with the
+		// Go locals in scope there
+		if st != nil && fr.stmtOrd != nil && fr.contract != nil && !fr.inlined {
+			if n, ok := fr.stmtOrd[s]; ok {
+				label := fmt.Sprintf("stmt%d", n)
+				if len(fr.contract.At[label]) > 0 {
+					saved := fr.specPos
+					fr.specPos = s.End()
+					vc.applyHints(fr, st, label)
+					fr.specPos = saved
+				}
+			}
+		}
 	}
 	return st
 }
